@@ -60,7 +60,7 @@ def run_case(case):
     rng = gen.rng_for(case['seed'], case['idx'], 11)
     sample = None
     for k in range(PER_CASE):
-        w = work_inter.draw(rng, maxsites=5, sigmas=(0.3, 1., 2.))
+        w = work_inter.draw(rng, maxsites=5, sigmas=(0.3, 1., 2.), noncentro=0.2)
         if w is None:
             mon.count('skipped_empty_or_huge')
             continue
